@@ -18,7 +18,9 @@
 //	(A) res1 applied exactly one patch P:  ids(res2.Vulnerabilities) == ids(res1.Vulnerabilities) - ids(P.Fixed) + ids(P.Introduced)
 //	(B) res1 applied no patch:             the requirement list (name, version, origin) the real reader parses from the
 //	                                       written file equals the one of the original file
-//	(C) no id of P.Fixed is marked Unactionable in res1.Vulnerabilities
+//	(C) internal consistency of every result (res1, and res0 = the same FixVulns with MaxUpgrades=0, i.e. every
+//	    compatible patch applied, on its own copy of the manifest): no vulnerability is both listed in the Fixed
+//	    of one of the result's patches and marked Unactionable
 //	(D) with the no-introduce option the applied patch reports no Introduced vulnerability (the documented meaning
 //	    of the option; together with (A) this means the re-analysis finds no new vulnerability)
 //
@@ -183,6 +185,30 @@ func runTuple(c *u.Case, dir string) *tupleOut {
 		return out
 	}
 
+	// run 0: the same analysis with MaxUpgrades=0 (every compatible patch is applied) on its own copy; law (E)
+	var res0 result.Result
+	var err0 error
+	p, stack = ev.Recover(func() {
+		path, err := c.PutManifest(filepath.Join(dir, "r0"), base)
+		if err != nil {
+			panic(err)
+		}
+		o, err := c.FixOptions(path, 0)
+		if err != nil {
+			panic(err)
+		}
+		res0, err0 = guidedremediation.FixVulns(o)
+	})
+	if p != nil {
+		out.add(st+":panic:"+ev.PanicSite(stack), "FixVulns (MaxUpgrades=0) panics: %v", p)
+		out.logf("%s", stack)
+		return out
+	}
+	if err0 == nil {
+		checkConsistent(st, "MaxUpgrades=0", res0, out)
+	}
+	checkConsistent(st, "MaxUpgrades=1", res1, out)
+
 	// run 2: fresh clients, same filters, nothing may be upgraded
 	var res2 result.Result
 	var err2 error
@@ -227,11 +253,6 @@ func runTuple(c *u.Case, dir string) *tupleOut {
 	out.applied = 1
 	P := res1.Patches[0]
 	fixed, intro := set(ids(P.Fixed)), set(ids(P.Introduced))
-	for _, v := range res1.Vulnerabilities {
-		if fixed[v.ID] && v.Unactionable {
-			out.add(st+":fixed-marked-unactionable", "%s is fixed by the applied patch %s but marked unactionable", v.ID, describePatches(res1.Patches))
-		}
-	}
 	if c.Opt.NoIntroduce && len(intro) > 0 {
 		out.add(st+":no-introduce-violated", "NoIntroduce is set but the applied patch %s reports introduced vulnerabilities", describePatches(res1.Patches))
 	}
@@ -289,6 +310,23 @@ func runTuple(c *u.Case, dir string) *tupleOut {
 		}
 	}
 	return out
+}
+
+// checkConsistent is the internal-consistency law on one result: no vulnerability is both listed as
+// fixed by one of the result's patches and marked unactionable.
+func checkConsistent(st, label string, res result.Result, out *tupleOut) {
+	fixedBy := map[string]bool{}
+	for _, p := range res.Patches {
+		for _, v := range p.Fixed {
+			fixedBy[v.ID] = true
+		}
+	}
+	for _, v := range res.Vulnerabilities {
+		if fixedBy[v.ID] && v.Unactionable {
+			out.add(st+":fixed-marked-unactionable", "%s result: %s is listed as fixed by a patch of %s but marked unactionable", label, v.ID, describePatches(res.Patches))
+			return
+		}
+	}
 }
 
 func keys(m map[string]bool) []string {
@@ -472,8 +510,8 @@ func main() {
 	r.Set("dont_care_cells_hit", dc)
 	r.Assume("the in-memory deps.dev LocalClient and the npm/Maven resolvers of deps.dev/util/resolve are the resolution semantics (the same ones the repository's own tests use)")
 	r.Assume("vulnerability matching uses the repository's IsAffected (decided separately by C18)")
-	rule := "For every tuple (universe, manifest, vulnerability set, upgrade config, option variant) of the bounded product below, npm/relax and Maven/override, MaxUpgrades=1: run 1 = FixVulns on the manifest file; run 2 = fresh FixVulns (fresh clients, same filter options, every upgrade level none) on the file run 1 wrote. (A) if run 1 applied one patch P: ids(run2 vulns) = ids(run1 vulns) - ids(P.Fixed) + ids(P.Introduced); (B) if run 1 applied no patch: the re-read requirement list equals the original; (C) no id in P.Fixed is Unactionable in run 1; (D) with no-introduce P.Introduced is empty; no panic, no tuple longer than 120 s. " +
-		"Bound (" + r.Tier + ", Lite lists): " + b.Describe() + "; upgrade configs {major},{patch},{minor,first package:none}; shapes " + strings.Join(u.FixShapes, ", ") + " of verif/universe/gen.go, each the full product of its lists, times the option variants of universe.OptionVariants (default, ignore=[Vi], explicit=[Vi], dev-deps off with requirement i marked dev, max depth 1, max depth 2, min severity 5.0 with V1 low/V2 high and vice versa, no-introduce), enumerated simplest first."
+	rule := "For every tuple (universe, manifest, vulnerability set, upgrade config, option variant) of the bounded product below, npm/relax and Maven/override, MaxUpgrades=1: run 1 = FixVulns on the manifest file; run 2 = fresh FixVulns (fresh clients, same filter options, every upgrade level none) on the file run 1 wrote. (A) if run 1 applied one patch P: ids(run2 vulns) = ids(run1 vulns) - ids(P.Fixed) + ids(P.Introduced); (B) if run 1 applied no patch: the re-read requirement list equals the original; (C) in run 1 and in a run with MaxUpgrades=0 no vulnerability is both in the Fixed list of a reported patch and Unactionable; (D) with no-introduce P.Introduced is empty; no panic, no tuple longer than 120 s. " +
+		"Bound (" + r.Tier + ", Lite lists): " + b.Describe() + "; upgrade configs {major},{patch},{minor,first package:none},{major,last package:none} (the last package is the vulnerable transitive one in the chain shapes); shapes " + strings.Join(u.FixShapes, ", ") + " of verif/universe/gen.go, each the full product of its lists, times the option variants of universe.OptionVariants (default, ignore=[Vi], explicit=[Vi], dev-deps off with requirement i marked dev, max depth 1, max depth 2, min severity 5.0 with V1 low/V2 high and vice versa, no-introduce), enumerated simplest first."
 	os.RemoveAll(scratchRoot)
 	r.Finish(rule, exhaustive)
 }
